@@ -28,7 +28,7 @@ ENGINE = "hypothesis"
 ARMS = ("canonical", "other_key", "other_msg", "other_suite", "pop_confusion", "aug_no_prefix", "negated",
         "doubled", "plus_torsion", "identity", "bitflip", "reencoded", "random_point", "random_bytes")
 _REQ = [f"arm:{a}" for a in ARMS] + ["verdict:True", "verdict:False", "reached_pairing:False-verdict",
-                                      "entry:PopVerify", "entry:Verify:basic", "entry:Verify:aug", "entry:Verify:pop",
+                                      "pop_confusion:sequence", "entry:PopVerify", "entry:Verify:basic", "entry:Verify:aug", "entry:Verify:pop",
                                       "bitflip:flag_bit"]
 REQUIRED_LABELS = {"quick": _REQ, "thorough": _REQ}
 
@@ -99,6 +99,22 @@ def o_verify(ctx, case):
                   f"{S.__name__}.{entry} accepted a string that is not the canonical signature "
                   f"(arm {case.get('arm')}: {case.get('detail', '')})")
     arm = case.get("arm", "?")
+    if arm == "pop_confusion":
+        # domain separation must not depend on what was hashed before: run both directions on this
+        # key in one process (honest proof -> PopVerify True, the same bytes as a signature of the key
+        # bytes -> False; honest signature of the key bytes -> Verify True, as a proof -> False)
+        P_ = sc.lib_suite("pop")
+        proof, sigpk = blssig.pop_prove(sk), blssig.sign("pop", sk, pk)
+        seq = [("PopVerify(pk, proof)", lambda: P_.PopVerify(pk, proof), True),
+               ("Verify(pk, pk, proof)", lambda: P_.Verify(pk, pk, proof), False),
+               ("Verify(pk, pk, Sign(sk, pk))", lambda: P_.Verify(pk, pk, sigpk), True),
+               ("PopVerify(pk, Sign(sk, pk))", lambda: P_.PopVerify(pk, sigpk), False),
+               ("Verify(pk, pk, proof) again", lambda: P_.Verify(pk, pk, proof), False)]
+        for name, fn, exp in seq:
+            out = fn()
+            ctx.check(out is exp, "verify", "pop_domain_separation_sequence", case,
+                      f"G2ProofOfPossession: {name} = {out!r}, expected {exp} (sequence on one key in one process)")
+        ctx.label("pop_confusion:sequence")
     ctx.label(f"arm:{arm}")
     ctx.label(f"verdict:{want}")
     ctx.label("entry:PopVerify" if entry == "PopVerify" else f"entry:Verify:{suite}")
